@@ -403,6 +403,17 @@ func c01Run(c *core.Ctx, idx int) {
 					return stackage.And().Push(leaf, leaf)
 				}
 				return stackage.And().Push(stackage.List().Push(leaf), stackage.Not().Push(leaf))
+			case 7:
+				// a Stack / Condition variable that was never initialised, or was released: a value like any other
+				switch r.Intn(3) {
+				case 0:
+					return stackage.Stack{}
+				case 1:
+					return stackage.Condition{}
+				}
+				f := stackage.Or().Push(plain())
+				f.Free()
+				return f
 			}
 			return plain()
 		}
